@@ -52,9 +52,15 @@ def perturb(rng, ts, kinds, phased=True):
         t.metadata_schema = tskit.MetadataSchema.permissive_json()
         t.metadata = {"note": "x" * rng.randint(0, 5)}
         t.nodes.metadata_schema = tskit.MetadataSchema.permissive_json()
-        t.nodes.packset_metadata([json.dumps({"foo": rng.randint(0, 9)}).encode() for _ in range(t.nodes.num_rows)])
+        stale = rng.random() < 0.5   # rows that already carry mn/vr, as a previous dating run leaves behind
+        def row(key, val):
+            d = {key: val}
+            if stale:
+                d.update({"mn": 100.0 + rng.random(), "vr": 7.0})
+            return json.dumps(d).encode()
+        t.nodes.packset_metadata([row("foo", rng.randint(0, 9)) for _ in range(t.nodes.num_rows)])
         t.mutations.metadata_schema = tskit.MetadataSchema.permissive_json()
-        t.mutations.packset_metadata([json.dumps({"bar": rng.random()}).encode() for _ in range(t.mutations.num_rows)])
+        t.mutations.packset_metadata([row("bar", rng.random()) for _ in range(t.mutations.num_rows)])
     if "node_flag_bits" in kinds:   # bits other than NODE_IS_SAMPLE
         fl = t.nodes.flags.copy()
         for u in range(t.nodes.num_rows):
@@ -92,6 +98,9 @@ def one(ctx, rng):
     # place where per-node sample status is re-derived from the flags
     ts = D.datable_ts(rng, historical=(vg and rng.random() < 0.4), internal=(vg and rng.random() < 0.5),
                       big=rng.random() < 0.15)
+    if vg and rng.random() < 0.4:
+        from vlib import gen as _g
+        ts = _g.add_root_mutations(rng, ts)   # undatable mutations: their posterior is NaN
     kw = D.method_options(rng, method, ts)
     if vg and rng.random() < 0.5:
         kw["constr_iterations"] = rng.choice([1, 5, 50])
@@ -100,6 +109,8 @@ def one(ctx, rng):
         kinds.append("node_flag_bits")
     if rng.random() < 0.5 and "monomorphic_sites" not in kinds:
         kinds.append("monomorphic_sites")
+    if rng.random() < 0.4 and "metadata" not in kinds:
+        kinds.append("metadata")
     seed2 = rng.randrange(10**9)
     import random
     ts2 = perturb(random.Random(seed2), ts, kinds)
@@ -121,6 +132,14 @@ def one(ctx, rng):
         return
     a, b = D.result_arrays(r[1]), D.result_arrays(r2[1])
     # (mutation rows are compared in the canonical (position, node, time) order of result_arrays)
+    # posterior moments are read from the metadata a method WRITES: variational_gamma writes node and mutation
+    # rows, inside_outside node rows only, maximization none; rows a method does not write pass through
+    # unchanged (policy of C32), so stale input mn/vr there is not a dating result
+    drop = {"variational_gamma": (), "inside_outside": ("mut_mn", "mut_vr"),
+            "maximization": ("mut_mn", "mut_vr", "node_mn", "node_vr")}[method]
+    for k in drop:
+        a.pop(k, None)
+        b.pop(k, None)
     d, key = D.max_rel_diff(a, b)
     ctx.case(dict(desc, max_rel_diff=d), nontrivial=len(kinds) >= 2, kind="ok/" + method)
     if d > 0.0:
